@@ -134,4 +134,39 @@ def sendVerdict (t : Tracker) (d : SetDesc) (o : Obs) : Tracker × String :=
           | none => (t', "fails c02:short-message")
     | _ => (t, "fails c08:not-exactly-one-message")
 
+/-- the templates a refresh must re-send: every id transmitted so far once, with its FIRST definition
+    (`sent` is most recent first; updateTemplate keeps the first definition of an id) -/
+def refreshExpected (t : Tracker) : List (Nat × List IE) :=
+  t.sent.reverse.foldl (fun acc p => if acc.any (·.1 == p.1) then acc else acc ++ [p]) []
+
+/-- the template id a message announces (first record of its set), for matching messages to templates -/
+def announcedTid (w : Bytes) : Option Nat :=
+  match parseMessage w with
+  | some m => match m.body with
+    | a :: b :: _ => some (a.toNat * 256 + b.toNat)
+    | _ => none
+  | none => none
+
+/-- C02 / C08 on one pass of the template refresher (UDP): exactly one message per template
+    transmitted so far, each a well-formed template message (independent parser: version, lengths,
+    domain, set id 2, the template's specifiers) stamped with the unchanged sequence number -/
+def refreshVerdict (t : Tracker) (wires : List Bytes) (timeOK : Bool) : String :=
+  let exp := refreshExpected t
+  if wires.length ≠ exp.length then s!"fails c02:refresh-count expected {exp.length} got {wires.length}"
+  else if !timeOK then "fails c08:export-time"
+  else
+    let bad := exp.filterMap fun p =>
+      match wires.filter (fun w => announcedTid w == some p.1) with
+      | [w] =>
+        let d : SetDesc := { ty := .template, setId := p.1, recs := [(p.1, p.2.map fun ie => (ie, Value.num 0))] }
+        let v := wireVerdict t d w
+        if v ≠ "ok" then some s!"{v} (template {p.1})"
+        else match parseMessage w with
+          | some m => if m.seq ≠ t.seq then some s!"c08:sequence expected {t.seq} got {m.seq}" else none
+          | none => some "c02:short-message"
+      | _ => some s!"c02:refresh-not-exactly-one-message-for-template {p.1}"
+    match bad with
+    | [] => "holds"
+    | b :: _ => "fails " ++ b
+
 end Ipfix.ExpSpec
